@@ -6,7 +6,8 @@ VERIF = os.path.dirname(os.path.dirname(os.path.abspath(__file__)))
 BUILD = os.environ.get('CAT_BUILD', os.path.join(VERIF, 'build'))
 WORK = BUILD          # ./check points this at a private directory of the run (removed afterwards)
 REPO = os.environ.get('CAT_REPO', '/repo')
-CAPS = [1, 2, 3, 8]
+CAPS = [1, 2, 3, 8]                # capacities the generators choose from
+BUILD_CAPS = CAPS + [260]          # + one capacity above 255 for the family bigcap (index/counter widths)
 DRV_TAG = os.environ.get('CAT_DRV_TAG', '')      # set per property by ./check so that concurrent checks do not share binaries
 
 RC = dict(ERROR=-1, DATA_OK=0, DATA_NEXT=1, NEXT=2, OK=3, HOLD=4, HOLD_EXIT_OK=5,
@@ -160,9 +161,10 @@ def sh(cmd, **kw):
     return subprocess.run(cmd, shell=True, stdout=subprocess.PIPE, stderr=subprocess.STDOUT, text=True, **kw)
 
 
-def build_cdrivers(caps=CAPS, san=False, log=None):
+def build_cdrivers(caps=None, san=False, log=None):
     """(Re)build the C driver from /repo's current working tree, once per capacity.
     Returns (ok, message)."""
+    caps = BUILD_CAPS if caps is None else caps
     os.makedirs(WORK, exist_ok=True)
     procs = []
     for cap in caps:
